@@ -711,6 +711,20 @@ def c04(step, res):
                 if have != want:
                     miss.append('consumer %s has %r, body says %r'
                                 % (c, have, want))
+                # ... and the consumer is recorded with the project, user
+                # and type the accepted request names for it
+                e = body if step.route == 'alloc' else (
+                    (body.get('allocations') or {}).get(c)
+                    if step.route == 'reshaper' else body.get(c)) \
+                    if isinstance(body, dict) else None
+                cur = after.consumers.get(c)
+                if want and cur and isinstance(e, dict):
+                    for key, col in (('project_id', 'project'),
+                                     ('user_id', 'user'),
+                                     ('consumer_type', 'type')):
+                        if key in e and cur[col] != e[key]:
+                            miss.append('consumer %s has %s %r, body says '
+                                        '%r' % (c, col, cur[col], e[key]))
     if step.route == 'reshaper' and isinstance(body, dict):
         for rp, x in (body.get('inventories') or {}).items():
             want = {rc: _norm_inv(f)
